@@ -835,7 +835,15 @@ impl<T: El> MapWorld<T> {
                     window(|| d.retain(|k, _| Some(k.id()) == survivor));
                 }
                 let src = &self.m;
-                window(|| d.clone_from(src));
+                if let Err(msg) = catch(|| window(|| d.clone_from(src))) {
+                    // An interrupted clone_from (C07): the destination may hold anything, but it must stay
+                    // memory-safe and usable.  Examine it before the panic travels on.
+                    self.leaky = true;
+                    let verdict = if msg.starts_with(hasher::FUSE_MSG) { Self::interrupted_destination(&mut d, &self.r, nd, src) } else { Ok(()) };
+                    std::mem::forget(d);
+                    verdict?;
+                    panic!("{}", msg);
+                }
                 let old = std::mem::replace(&mut self.m, d);
                 drop(old);
                 self.deadline = None;
@@ -873,6 +881,77 @@ impl<T: El> MapWorld<T> {
         }
         obs.u64(self.m.len() as u64);
         Ok(obs.finish64())
+    }
+
+    /// What must hold for the destination of a `clone_from` that was interrupted by a panic in user code:
+    /// whatever it holds, `len()` agrees with iteration, iterated elements are live and found, and later
+    /// calls (removing every key it could know, inserting new ones, another `clone_from`) neither panic
+    /// nor corrupt the count.
+    fn interrupted_destination(d: &mut M<T, T>, src_ref: &BTreeMap<u32, u32>, nd: u32, src: &M<T, T>) -> VResult<()> {
+        // (the statement leaves the *contents* of an interrupted destination unspecified - it may even hold
+        // elements filed under the source's hasher while it still has its own - so "found by get" is only
+        // demanded once a later clone_from has completed)
+        let consistent = |d: &M<T, T>, when: &str, strict: bool| -> VResult<()> {
+            let got: Vec<(u32, u32)> = harness(|| d.iter().map(|(k, v)| (k.id(), v.id())).collect());
+            if let Some(f) = elem::ledger_fault() {
+                vbail!("ledger", "destination of an interrupted clone_from, {}: {}", when, f);
+            }
+            if got.len() != d.len() || d.is_empty() != (d.len() == 0) {
+                vbail!("audit", "destination of an interrupted clone_from, {}: len() = {} but iter() yields {} entries", when, d.len(), got.len());
+            }
+            for &(k, v) in &got {
+                let kk = harness(|| Self::mkk(k));
+                let g = catch(|| d.get(&kk).map(|x| x.id()));
+                harness(|| drop(kk));
+                match g {
+                    Err(msg) => vbail!("panic", "get({}) on the destination of an interrupted clone_from, {}: {}", k, when, msg),
+                    Ok(g) if strict && g != Some(v) => vbail!("audit", "destination of an interrupted clone_from, {}: iterates ({}, {}) but get gives {:?}", when, k, v, g),
+                    Ok(_) => {}
+                }
+            }
+            Ok(())
+        };
+        consistent(d, "right after the panic", false)?;
+        // remove every key it may know of (its own former keys and the source's)
+        let keys: Vec<u32> = harness(|| src_ref.keys().copied().chain(1000..1000 + nd).collect());
+        for k in keys {
+            let before = d.len();
+            let kk = harness(|| Self::mkk(k));
+            let r = catch(|| d.remove(&kk).is_some());
+            harness(|| drop(kk));
+            match r {
+                Err(msg) => vbail!("panic", "remove({}) on the destination of an interrupted clone_from: {}", k, msg),
+                Ok(found) => {
+                    if d.len() > before || (found && d.len() + 1 != before) || (!found && d.len() != before) {
+                        vbail!("audit", "remove({}) on the destination of an interrupted clone_from: found = {}, len {} -> {}", k, found, before, d.len());
+                    }
+                }
+            }
+        }
+        consistent(d, "after removing every key", false)?;
+        let base = d.len();
+        for i in 0..20u32 {
+            let (a, b) = (harness(|| Self::mkk(5000 + i)), harness(|| Self::mkv(i % VMOD)));
+            if let Err(msg) = catch(|| d.insert(a, b)) {
+                vbail!("panic", "insert on the destination of an interrupted clone_from: {}", msg);
+            }
+            if T::ZST {
+                break;
+            }
+        }
+        if !T::ZST && d.len() != base + 20 {
+            vbail!("audit", "20 insertions into the destination of an interrupted clone_from: len {} -> {}", base, d.len());
+        }
+        consistent(d, "after inserting again", false)?;
+        match catch(|| d.clone_from(src)) {
+            Err(msg) => vbail!("panic", "a second clone_from into the same destination: {}", msg),
+            Ok(()) => {
+                if *d != *src || d.len() != src.len() {
+                    vbail!("mismatch", "a second clone_from into the destination of an interrupted one does not yield an equal map");
+                }
+            }
+        }
+        consistent(d, "after a second clone_from", true)
     }
 
     /// Insert `n` never-seen keys: no panic (caller catches), no table allocation, capacity never
